@@ -690,8 +690,15 @@ impl<'a> Sess<'a> {
                 // a third class: the requested line has rows ONLY in sequences of discarded functions (addresses below the first
                 // instruction): the implementation takes those and never looks at the next line, whose functions get nothing
                 let dead_only = which == l + 1 && o.line_rows(&path, l).iter().any(|(_, _, live)| !*live);
+                // a fourth class: the function's row carries prologue_end and the NEXT row of the same file in its line table (by
+                // address) is another is_stmt prologue_end row of the line: the look-ahead "prefer a prologue_end sibling" jumps to
+                // that one although the row it starts from is a prologue_end row itself, and never comes back
+                let pe_followed_by_pe = |a: u64| all_rows.iter().filter(|(_, r, live)| *live && !r.es && r.addr == a).all(|(ti, r, _)| r.pe && {
+                    let next = o.tables[*ti].seqs.iter().flatten().filter(|x| x.file == r.file && x.addr > r.addr).min_by_key(|x| x.addr);
+                    matches!(next, Some(x) if x.stmt && x.pe && !x.es && x.line == r.line) });
                 let key = if dead_only { "line-breakpoint-not-moved-to-next-line-when-line-only-in-discarded-code" }
                     else if rows.iter().all(|r| has_differing_sibling(r.0)) { "line-breakpoint-misses-function-or-instantiation" }
+                    else if rows.iter().all(|r| has_differing_sibling(r.0) || pe_followed_by_pe(r.0)) { "line-breakpoint-skips-prologue-end-row-followed-by-another" }
                     else { "line-breakpoint-misses-function-without-differing-row-in-its-unit" };
                 self.w.fail(key, format!("{}: {tpl}:{l}: function {:?} (DIE {:#x}) has statements of line {which} at {:x?} but gets no breakpoint (breakpoints: {addrs:x?})",
                     self.prog, o.name_of(o.subs[*s].off), o.subs[*s].off, rows.iter().map(|r| r.0).collect::<Vec<_>>()), self.replay(line));
